@@ -785,7 +785,12 @@ def term_expr(t, name):
 def param_list(p):
     """parameter list of a provider function; the last parameter of a variadic provider is written ...Elem"""
     n = len(p["requires"])
-    return ", ".join("p%d %s" % (q, ("..." + t[2:]) if (p.get("variadic") and q == n - 1) else t) for q, t in enumerate(p["requires"]))
+    return ", ".join("p%d %s" % (q, ("..." + t[2:]) if (is_variadic(p) and q == n - 1) else t) for q, t in enumerate(p["requires"]))
+
+
+def is_variadic(p):
+    """the flag is set when the provider is generated; a later mutation may have appended another requirement"""
+    return bool(p.get("variadic") and p["requires"] and p["requires"][-1].startswith("[]"))
 
 
 def render_provider(d, i, p):
@@ -854,7 +859,7 @@ def provider_expr(d, p):
         rets = [g[0] for g in p["provides"]] + ([p.get("errtype", "error")] if p["fallible"] else [])
         nreq = len(p["requires"])
         e = "kessoku.Provide(func(%s) (%s) { return %s(%s) })" % (params, ", ".join(rets), p["fn"],
-                                                                  ", ".join("p%d%s" % (q, "..." if (p.get("variadic") and q == nreq - 1) else "") for q in range(nreq)))
+                                                                  ", ".join("p%d%s" % (q, "..." if (is_variadic(p) and q == nreq - 1) else "") for q in range(nreq)))
     if p["async"] and p.get("nest") == "bind_outer":
         e = "kessoku.Async(%s)" % e          # Bind[I](Async(Provide(f))): the other legal nesting
         for iface in p.get("bind", []):
